@@ -602,7 +602,16 @@ impl<'a, Input: InputIndexer> MatchAttempter<'a, Input> {
                     } else {
                         input.next_right_pos(*max)
                     };
-                    if let Some(newmax) = newmax {
+                    if let Some(mut newmax) = newmax {
+                        // min may lie between the halves of a surrogate pair (a UTF-16 search
+                        // may start there), where a step back by one character jumps over it.
+                        if if Dir::FORWARD {
+                            newmax < *min
+                        } else {
+                            newmax > *min
+                        } {
+                            newmax = *min;
+                        }
                         *pos = newmax;
                         *max = newmax;
                     } else {
